@@ -10,6 +10,11 @@ character stays escaped, `\\c` or `\\x{..}`) for the variant with the white-spac
 digits, C escapes, classes, \\A \\z \\B), `declared_names_spec` (the names of a declaration are the maximal runs of non-white-space),
 `trim_end_keeps` / `trim_end_split` (only spaces and tabs are trimmed from the end of a regex), with `esc_table_orig_refuted`,
 `lex_esc_refuted`, `decl_blanks_refuted`, `trim_orig_refuted`, `lex_trim_refuted` for the code before those three repairs.
+Second audit: the list of `esc_table_spec` has the OCTAL digits only (`\\8` `\\9` are escapes of neither side: they stand for 8, 9);
+`esc_table_digit_refuted` / `lex_esc_digit_refuted` for the table that listed every digit (`a\\9b` kept, which the engine refuses).
+The nest limit is not mirrored (regex compilation is an oracle of the mirror): the check carries it — for limits 0..5 and
+written regexes of nesting depth 0..5 (and the default, depths 248..252) a rule is accepted iff the regex crate on its own builds
+the written regex under that limit.
 Oracle (independent of the mirror): abstract lexer specs are rendered to text in many layouts; the
 implementation must report exactly the abstract rules (order, names, start states, targets, kinds),
 spans that select the names in the text the user wrote, regexes equivalent (regex crate, battery of
@@ -46,6 +51,19 @@ if re.fullmatch("[01]{5}", os.environ.get("GV_C11_AUDIT_FIXED", "")):
     ESC_TABLE_FIXED, DECL_BLANKS_FIXED, TRIM_BLANK_FIXED, NUM_FLAGS_FIXED, PAREN_FIXED = (
         c == "1" for c in os.environ["GV_C11_AUDIT_FIXED"])
 
+# the second audit (/repo a1aadcd, ff0cd55 + 0ffd98f).  ESC_OCTAL_FIXED selects the variant of the mirror (9th digit of fx=) and
+# the known-key classification.  The nest limit took two commits: ff0cd55 raised the limit of the wrapped build by one, but the
+# wrapper `\\A(?:..)` is a concatenation AND a group — two levels to regex-syntax's NestLimiter — so the limit in force was still
+# one less than the one given (this check found that); 0ffd98f gives the wrapped build limit + 2, and 252 when no limit is given.
+# NEST_LIMIT_FIXED (ff0cd55): a gap of TWO with a limit alarms; NEST_WRAPPER_FIXED (0ffd98f): a gap of exactly one with a limit,
+# of two without one, alarms (while False: class K_NEST1).  GV_C11_AUDITB_FIXED=<3 digits> evaluates the check against a tree
+# without some of them.
+ESC_OCTAL_FIXED = True      # parser.rs RE_LEX_ESC_LITERAL lists [0-7] only (K_DIGIT)
+NEST_LIMIT_FIXED = True     # lexer.rs Rule::new: the wrapped build gets nest_limit + 1 (K_NEST)
+NEST_WRAPPER_FIXED = True   # lexer.rs Rule::new: ... + 2, and 252 when the flag is unset (K_NEST1)
+if re.fullmatch("[01]{3}", os.environ.get("GV_C11_AUDITB_FIXED", "")):
+    ESC_OCTAL_FIXED, NEST_LIMIT_FIXED, NEST_WRAPPER_FIXED = (c == "1" for c in os.environ["GV_C11_AUDITB_FIXED"])
+
 K_SPANS = "spans of a lex spec with a %grmtools header are relative to the text after the header"
 K_PREFIX = "lex escapes are not rewritten in a rule that has a start-state prefix"
 K_DANGLING = "unescape drops the end of a regex that ends in a lone backslash"
@@ -56,7 +74,15 @@ K_ESC = "the lex escapes \\B and braced \\x{..} \\u{..} \\U{..} lose their backs
 K_TRIM = "a regex ending in a form feed, NEL, LRM or RLM character loses it"
 K_NUM = "a numeric lex flag above its type's range wraps around"
 K_PAREN = "a lex rule whose regex has an unbalanced parenthesis is accepted and lexes text it does not match"
-KNOWN_KEYS = [K_SPANS, K_PREFIX, K_DANGLING, K_TARGET, K_BLANKS, K_IW, K_ESC, K_TRIM, K_NUM, K_PAREN]
+K_DIGIT = "the escapes \\8 and \\9 (not octal) are handed to the regex engine escaped and the rule is rejected"
+K_NEST = "the nest_limit in force is two less than the one given (the wrapper \\A(?:..) counts against it)"
+K_NEST1 = "the nest_limit in force is one less than the one given, two less than the default when none is given (the wrapper \\A(?:..) is a concatenation and a group)"
+KNOWN_KEYS = [K_SPANS, K_PREFIX, K_DANGLING, K_TARGET, K_BLANKS, K_IW, K_ESC, K_TRIM, K_NUM, K_PAREN, K_DIGIT, K_NEST, K_NEST1]
+
+
+# classes of the second audit whose repair is switched off through GV_C11_AUDITB_FIXED (evaluation against a tree without the
+# commit): deviations of exactly that class are counted, not reported (their known_findings entries are `fixed`)
+TOLERATED = set(([] if ESC_OCTAL_FIXED else [K_DIGIT]) + ([] if NEST_LIMIT_FIXED else [K_NEST]) + ([] if NEST_WRAPPER_FIXED else [K_NEST1]))
 
 
 def hx(s):
@@ -139,7 +165,7 @@ def battery(rng, exp):
 # ------------------------------------------------------------------ part A: oracle on the implementation
 def fx_string():
     return "".join("1" if b else "0" for b in (SPANS_FIXED, TARGET_FIXED, PREFIX_FIXED, DANGLING_FIXED, IW_ESCAPE_FIXED,
-                                                ESC_TABLE_FIXED, DECL_BLANKS_FIXED, TRIM_BLANK_FIXED))
+                                                ESC_TABLE_FIXED, DECL_BLANKS_FIXED, TRIM_BLANK_FIXED, ESC_OCTAL_FIXED))
 
 
 def audit_class(rec, rule=None):
@@ -148,6 +174,8 @@ def audit_class(rec, rule=None):
     rules = rec["exp"]["rules"] if rule is None else [rule]
     if not ESC_TABLE_FIXED and any(G.has_new_escape(r["written"]) for r in rules):
         return K_ESC
+    if not ESC_OCTAL_FIXED and any(G.has_nonoctal_escape(r["written"]) for r in rules):
+        return K_DIGIT
     if not TRIM_BLANK_FIXED and any(G.ends_in_trail_ws(r["written"]) for r in rules):
         return K_TRIM
     if not DECL_BLANKS_FIXED and rule is None and rec["exp"].get("multi_blank"):
@@ -347,6 +375,128 @@ def audit_cases():
     return out
 
 
+def auditb_cases():
+    """the inputs of the second audit (C11b audit 4) and their neighbourhood, on every run: `\\8` `\\9` outside and inside
+    classes, next to octal escapes (`\\18` = `\\1` then 8, `\\78`, `\\1019`), behind a <A> prefix, with posix_escapes on / off,
+    ignore_whitespace, through from_str and new_with_options"""
+    I = ("INITIAL", False)
+
+    def rule(name, written, meant=None, pre=(), has_prefix=False):
+        return {"name": name, "pre": list(pre), "target": None, "written": written, "meant": written if meant is None else meant,
+                "has_prefix": has_prefix, "iw_esc": G.has_escaped_ws(written)}
+    L8, L9 = G.lit("8"), G.lit("9")
+    esc = [("\\8", L8, ["8", "\\8", "9"]), ("a\\9b", "a" + L9 + "b", ["a9b", "ab", "a\\9b"]), ("[\\8\\9]+", "[89]+", ["98", "8", "7"]),
+           ("\\9+", L9 + "+", ["999", "9"]), ("[^\\8]", "[^8]", ["8", "7"]), ("[0-\\9]+", "[0-9]+", ["0189", "a"]),
+           ("\\18", "\\1" + L8, ["\x018", "18", "\x01"]), ("\\78", "\\7" + L8, ["\x078", "78"]), ("\\1019", "\\101" + L9, ["A9", "1019"]),
+           ("\\8\\7", L8 + "\\7", ["8\x07", "87"]), ("\\09", "\\0" + L9, ["\x009", "09"]), ("(\\8|\\9)\\x{38}", "(8|9)8", ["98", "88", "8"]),
+           ("q\\8\\é\\9", "q" + L8 + "é" + L9, ["q8é9"]), ("\\x38\\9", "\\x38" + L9, ["89"])]
+    out = []
+    for w, m, inputs in esc:
+        shapes = [("digit/" + w, "", [rule("T", w, m), rule("U", "[a-zA-Z]")], [I], [x for x in inputs if "\x00" not in x]),
+                  ("digit-prefix/" + w, "%s A\n", [rule("T", w, m, pre=[1], has_prefix=True), rule("U", "y")], [I, ("A", False)], None)]
+        for tag, decl, rules, states, inp in shapes:
+            body = decl + "%%\n" + "".join("%s%s %s'%s'\n" % ("<A>" if r["pre"] else "", r["written"], "\t" if k else "", r["name"])
+                                           for k, r in enumerate(rules))
+            exp = {"rules": rules, "states": states}
+            bat = sorted(set(["", "8", "9", "89", "a9b", "ab", "7", "\x01", "\x018", "\x07", "\\", "\\8", "A", "A9"] + (inp or [])))
+            variants = [({}, "str", None), ({"pe": True}, "str", "%grmtools{posix_escapes}\n"), ({"pe": False}, "opt", None),
+                        ({"pe": True}, "opt", "%grmtools{!posix_escapes}\n"), ({"iw": True}, "opt", None), ({"oct": True}, "str", "%grmtools{octal}\n")]
+            for flags, route, hdr in variants:
+                text = (hdr or "") + body
+                out.append({"text": text, "exp": exp, "flags": flags, "route": route, "has_header": bool(hdr), "audit": tag,
+                            "line": case_line(text, flags, route, exp, bat, inp)})
+    return out
+
+
+# written regexes of known nesting depth to regex-syntax's NestLimiter (groups, classes, repetitions, alternations and
+# concatenations each count one level); the family `(`^d a `)`^d has depth exactly d
+def nest_regexes():
+    out = [("(" * d + "a" + ")" * d, None, d) for d in range(0, 6)]
+    out += [("(?:" * d + "a" + ")" * d, None, d) for d in range(1, 6)]
+    out += [("(\\8)", "(8)", 1), ("((\\9)\\é)", "((9)é)", None)]           # (written, meant): the limit is about the regex after unescape
+    out += [(w, None, None) for w in ["ab", "a|b", "a*", "[a]", "[ab]", "[[a]b]", "(ab)", "(a|b)", "(a)*", "((a)|b)", "(a(b(c)))", "((a)(b))+",
+                                "[a[b[c]]]", "(a|(b|(c|d)))", "a*?", "((((a))))b", "((\\x{41}))"]]
+    return out
+
+
+def obs_cases():
+    """behaviour recorded as OBSERVATIONS (second audit, c11b/1, c09b/1, c11b/3), never a verdict: alternation inside ONE rule is the
+    regex crate's leftmost-first choice, not POSIX leftmost-longest (the property's longest match is across rules; a rule's own
+    match is what the regex crate reports); `from_str` does not report unknown %grmtools keys (the builders do)"""
+    return [{"obs": "alternation inside a rule is leftmost-first (`if|iffy` on `iffy` matches `if`; the longest-match rule is across rules)",
+             "line": "src=%s in=%s" % (hx("%%\nif|iffy 'KW'\n[a-z]+ 'ID'\n"), hx("iffy")), "seen": lambda o: "x69666679=1:0:4" in o},
+            {"obs": "alternation inside a rule is leftmost-first (`a|ab` on `ab` gives KW(a) B(b))",
+             "line": "src=%s in=%s" % (hx("%%\na|ab 'KW'\nb 'B'\n"), hx("ab")), "seen": lambda o: "x6162=0:0:1,1:1:1" in o},
+            {"obs": "from_str accepts an unknown %grmtools key (`case_insensitiv`) and the default stays in force; CTLexerBuilder reports it",
+             "line": "src=%s in=%s" % (hx("%grmtools{case_insensitiv}\n%%\na 'x'\n"), hx("A")), "seen": lambda o: " | OK 1 1" in o and "x41=E0" in o},
+            {"obs": "the book's flag table spells `allow_wholeline_comment`; the code reads `allow_wholeline_comments` (the book's spelling is an unknown key to from_str)",
+             "line": "src=%s" % hx("%grmtools{allow_wholeline_comment}\n%%\n// c\na 'x'\n"), "seen": lambda o: " | ERRS" in o}]
+
+
+def nest_cases():
+    """small nest limits x nesting depths (C11b audit 2): the limit given — in the %grmtools section, through new_with_options (with
+    no section or one that says otherwise), or none at all (the regex crate's default, 250) — is the one in force for the regex
+    the user wrote: the rule is accepted iff the regex crate, on its own, builds the written regex under that limit"""
+    out = []
+    for w, meant, depth in nest_regexes():
+        for lim in (0, 1, 2, 3, 4, 5):
+            for route, hdr in (("str", "%%grmtools{nest_limit: %d}\n" % lim), ("opt", ""), ("opt", "%%grmtools{nest_limit: %d}\n" % (5 - lim))):
+                if depth is None and hdr and route == "opt":
+                    continue
+                text = hdr + "%%\n" + w + " 'T'\n"
+                line = "src=%s w=%s nl=%d in=%s" % (hx(text), hx(meant or w), lim, hlist(["a", "ab"])) + (" opt=nest:%d" % lim if route == "opt" else "")
+                out.append({"text": text, "written": w, "depth": depth, "limit": lim, "route": route, "line": line,
+                            "offset": len((hdr + "%%\n").encode("utf-8"))})
+    for d in (5, 100, 248, 249, 250, 251, 252, 300):         # no flag: the default of the regex crate
+        w = "(" * d + "a" + ")" * d
+        for route in ("str", "opt"):
+            text = "%%\n" + w + " 'T'\n"
+            out.append({"text": text, "written": w, "depth": d, "limit": None, "route": route, "offset": 3,
+                        "line": "src=%s w=%s nl=d in=%s" % (hx(text), hx(w), hx("a")) + (" opt=-" if route == "opt" else "")})
+    return out
+
+
+def judge_nest(rec, out):
+    sec = sections(out)
+    devs = []
+    nl = sec.get("NL", "NL").split()[1:]
+    lim, depth = rec["limit"], rec["depth"]
+    info = {"written_regex": rec["written"] if len(rec["written"]) < 60 else rec["written"][:20] + "…", "depth": depth,
+            "nest_limit_given": "none (default 250)" if lim is None else lim, "route": rec["route"]}
+    if len(nl) != 1 or len(nl[0].split(":")) != 4:
+        return [("the nest-limit case was not understood", None, dict(info, harness=out[:300]))]
+    alone, less, less2 = (x == "1" for x in nl[0].split(":")[1:])
+    if depth is not None and alone != (depth <= (250 if lim is None else lim)):
+        devs.append(("the regex crate's own verdict on a regex of known depth is not `depth <= limit` (the reference is off)", None, dict(info, alone=alone)))
+    if "OK" in sec:
+        if not alone:
+            devs.append(("a rule whose regex exceeds the nest limit given is accepted", None, dict(info, impl=sec["OK"][:200])))
+        return devs
+    errs = parse_errs(sec["ERRS"]) if "ERRS" in sec else None
+    if not errs or [e[0] for e in errs] != ["RegexError"] or errs[0][1] != [(rec["offset"], rec["offset"])]:
+        devs.append(("a rule rejected for its nesting is not reported as one RegexError at its line", None,
+                     dict(info, impl=(sec.get("ERRS") or sec.get("PANIC") or out)[:300])))
+        return devs
+    if alone:
+        # rejected although the regex crate builds the written regex under the limit given: the limit in force is smaller.
+        # `less` / `less2` (it also builds under limit - 1 / limit - 2) measure the gap.  The wrapper costs two levels; the code
+        # gives the wrapped build limit + 1 (since ff0cd55; limit before) and the default itself when no limit is given:
+        # gap 1 with a limit (2 before ff0cd55), gap 2 without
+        if less2:
+            key = None
+            cls = "the nest limit in force is at least three less than the one given: a regex the regex crate builds even under limit - 2 is rejected"
+        elif less:
+            key = (None if NEST_WRAPPER_FIXED else K_NEST1) if lim is None else (None if NEST_LIMIT_FIXED else K_NEST)
+            cls = "the nest limit in force is two less than the one given: a regex the regex crate builds even under limit - 1 is rejected"
+        else:
+            key = None if (NEST_WRAPPER_FIXED and NEST_LIMIT_FIXED) else K_NEST1 if NEST_LIMIT_FIXED else K_NEST
+            cls = "the nest limit in force is one less than the one given: a regex the regex crate builds under that limit is rejected"
+        if not ESC_OCTAL_FIXED and G.has_nonoctal_escape(rec["written"]):
+            key = K_DIGIT          # rejected for its `\\8` / `\\9`, not for its nesting
+        devs.append((cls, key, dict(info, impl=sec["ERRS"][:200])))
+    return devs
+
+
 NUM_KEYS = [("nest_limit", "nest", 2 ** 32 - 1), ("size_limit", "size", None), ("dfa_size_limit", "dfa", None)]
 NUM_VALUES = [2 ** 32 - 1, 2 ** 32, 2 ** 32 + 1, 2 ** 32 + 2, 2 ** 33, 2 ** 64 - 1]
 
@@ -465,7 +615,7 @@ def judge_oracle(rec, out):
                 key = K_PREFIX
             elif iw_class(rec) and len(errs) == 1 and errs[0][0] == "RegexError":
                 key = K_IW          # e.g. `[\ ]` rewritten to `[ ]`: an empty, hence unclosed, class in that mode
-            elif len(errs) == 1 and errs[0][0] == "RegexError" and audit_class(rec) in (K_ESC, K_TRIM):
+            elif len(errs) == 1 and errs[0][0] == "RegexError" and audit_class(rec) in (K_ESC, K_TRIM, K_DIGIT):
                 key = audit_class(rec)   # e.g. `\u{e9}` rewritten to `u{e9}`: not a repetition
             elif len(errs) == 1 and errs[0][0] == "InvalidStartStateName" and audit_class(rec) == K_BLANKS:
                 key = K_BLANKS
@@ -542,6 +692,9 @@ def judge_oracle(rec, out):
 
 def report(ctx, rec, devs, out, what):
     for cls, key, detail in devs:
+        if key in TOLERATED:
+            ctx.count("tolerated (repair switched off): " + key)
+            continue
         ctx.count("deviation: " + (key or cls))
         ctx.violation({"what": what, "class": cls, "detail": detail, "source_text": rec.get("text"),
                        "flags": rec.get("flags"), "route": rec.get("route"), "impl_output": out[:1500],
@@ -640,6 +793,7 @@ def run(ctx):
     # ---------------- A: oracle (abstract spec -> text -> implementation), corpus first
     recs = corpus_cases()
     recs += audit_cases()
+    recs += auditb_cases()
     for i in range(ctx.n(8000, 60000)):
         recs.append(oracle_case(rng, "str" if i % 3 else "opt"))
     probes = flag_probe_cases()
@@ -701,21 +855,31 @@ def run(ctx):
                           known_key=None if DANGLING_FIXED else K_DANGLING)
 
     # ---------------- A'': numeric flags at the edges of their types; regexes that are not regexes on their own
-    nums, parens = num_cases(), paren_cases()
-    nouts = core.run_lines([exe], [r["line"] for r in nums + parens], env=FAST_WATCHDOG)
-    nbad = 0
-    for rec, out in zip(nums + parens, nouts):
-        devs = judge_num(rec, out) if "value" in rec else judge_paren(rec, out)
-        ctx.case(("N " if "value" in rec else "P ") + rec["line"], True, {"text": rec["text"], "impl": out[:300]})
-        ctx.count("numeric_flag_" + ("in_force" if " | LIM nest" in out else "refused") if "value" in rec else
-                  "unbalanced_regex_" + ("rejected" if " | ERRS" in out else "accepted"))
-        nbad += len([d for d in devs if d[1] is None])
+    nums, parens, nests = num_cases(), paren_cases(), nest_cases()
+    nouts = core.run_lines([exe], [r["line"] for r in nums + parens + nests], env=FAST_WATCHDOG)
+    nbad = nbad_nest = 0
+    for rec, out in zip(nums + parens + nests, nouts):
+        fam = "N" if "value" in rec else ("L" if "limit" in rec else "P")
+        devs = judge_num(rec, out) if fam == "N" else (judge_nest(rec, out) if fam == "L" else judge_paren(rec, out))
+        ctx.case(fam + " " + rec["line"], True, {"text": rec["text"][:300], "impl": out[:300]})
+        ctx.count("numeric_flag_" + ("in_force" if " | LIM nest" in out else "refused") if fam == "N" else
+                  ("nest_limit_rule_" if fam == "L" else "unbalanced_regex_") + ("rejected" if " | ERRS" in out else "accepted"))
+        devs = [d for d in devs if d[1] not in TOLERATED or ctx.count("tolerated (repair switched off): " + d[1])]
+        if fam == "L":
+            nbad_nest += len(devs)
+        else:
+            nbad += len([d for d in devs if d[1] is None])
         for cls, key, detail in devs:
             ctx.count("deviation: " + (key or cls))
-            ctx.violation({"what": "numeric flags in force" if "value" in rec else "a rule's regex must be a regular expression on its own",
-                           "class": cls, "detail": detail, "source_text": rec["text"], "impl_output": out[:1500],
-                           "replay_cmd": "echo '%s' | .work/target/release/c11" % rec["line"]}, known_key=key)
+            ctx.violation({"what": {"N": "numeric flags in force", "P": "a rule's regex must be a regular expression on its own",
+                                    "L": "the nest limit given is the one in force for the written regex"}[fam],
+                           "class": cls, "detail": detail, "source_text": rec["text"][:600], "impl_output": out[:1500],
+                           "replay_cmd": "echo '%s' | .work/target/release/c11" % rec["line"][:3000]}, known_key=key)
     ctx.oblige(nbad == 0, "numeric flags in force / unbalanced regexes rejected")
+    ctx.oblige(nbad_nest == 0, "nest limit in force = nest limit given, on the written regex")
+    obs = obs_cases()
+    for rec, out in zip(obs, core.run_lines([exe], [r["line"] for r in obs], env=FAST_WATCHDOG)):
+        ctx.count(("observation: " if rec["seen"](out) else "observation no longer reproduces: ") + rec["obs"])
 
     # ---------------- B: implementation vs mirror on generated, mutated and truncated sources
     srcs = []          # (text, opt flags | None)
@@ -728,6 +892,9 @@ def run(ctx):
         srcs.append((d["text"], None))
     for d in parens[::3]:
         srcs.append((d["text"], None))
+    for d in nests[::7]:
+        if d["route"] == "str":
+            srcs.append((d["text"], None))
     # every truncation of a few sources
     for rec in recs[5:5 + ctx.n(25, 120)]:
         t = rec["text"]
@@ -793,7 +960,13 @@ def run(ctx):
         "6 multi-blank declarations, each x 4 flag/route variants); num_cases: nest_limit/size_limit/dfa_size_limit x {2^32-1, 2^32, "
         "2^32+1, 2^32+2, 2^33, 2^64-1} x key spelling (value in force = value written, or one Header error located at the setting; the "
         "definition builds and lexes); paren_cases: 12 regexes with unbalanced parentheses x {plain, <A> prefix} x 3 flag routes "
-        "(exactly one RegexError at the rule line); for every case with lexing inputs, incl. inputs that begin with text no rule "
+        "(exactly one RegexError at the rule line); auditb_cases: 14 shapes with \\8 / \\9 (plain, in classes and ranges, in groups, next to "
+        "octal escapes \\18 \\78 \\1019 \\09, beside multi-byte characters) x {plain, <A> prefix} x 6 flag/route variants (posix_escapes on/off, "
+        "ignore_whitespace, octal; section / new_with_options / contradicting section), and \\8 \\9 atoms in the random specs; nest_cases: "
+        "29 written regexes (groups of depth 0..5, capturing or not, classes, repetitions, alternations, concatenations, escapes that "
+        "unescape rewrites) x nest_limit 0..5 x {section, new_with_options, new_with_options with a section that says otherwise} + no "
+        "limit at all x depths {5, 100, 248..252, 300}: accepted iff the regex crate on its own builds the written regex under the limit "
+        "given (for the pure group family also: iff depth <= limit), a rejection is one RegexError at the rule line; for every case with lexing inputs, incl. inputs that begin with text no rule "
         "matches: every emitted lexeme is matched by its rule's regex — compiled on its own — at offset 0 of the remaining input (ANCH); "
         "judged against the abstract spec (rules, states, span texts, "
         "regex equivalence on a battery of ~90 strings per case, flag probes lexed against a reference lexer). "
@@ -810,6 +983,8 @@ def run(ctx):
         "the %grmtools section parser is not mirrored here (theories/C12): its end position and the flags it yields are inputs of the mirror, taken from the public GrmtoolsSectionParser/LexFlags::try_from",
         "Rule::new (regex compilation) is opaque to the mirror: which rule line fails to compile is an input of the mirror (taken from the implementation's RegexError); regex semantics are decided by the regex crate in the harness",
         "'what the written regex denotes' is the generator's own definition of lex escaping (gen/c11gen.py), compiled by the regex crate with the flags in force and compared on a finite battery",
-        "effective flags are observed through behaviour (lex_flags() is pub(crate)); the numeric limits are observed through the public LexFlags::try_from on the parsed section (the conversion from_str itself uses) and, for large values, through the definition building; small limits are not probed (the wrapper \\A(?:..) adds nesting of its own)",
+        "effective flags are observed through behaviour (lex_flags() is pub(crate)); the numeric limits are observed through the public LexFlags::try_from on the parsed section (the conversion from_str itself uses) and through the definition building: large values must not reject a small regex, small nest limits (0..5, and the default) must admit exactly the written regexes the regex crate admits on its own under that limit (regex-syntax's NestLimiter is the reference for 'nesting depth')",
+        "a rule's own match is what the regex crate reports (leftmost-first: `if|iffy` on `iffy` matches `if`); the property's longest match is across rules — the reference lexer of the harness is built directly on the regex crate (observation, audit c11b/1 and c09b/1)",
+        "from_str / new_with_options do not report unknown %grmtools keys (CTLexerBuilder and the lrlex binary do); the book spells `allow_wholeline_comment` where the code reads `allow_wholeline_comments` (observations, audit c11b/3): the property speaks about flags GIVEN, an unknown key gives none",
         "StorageT::try_from(rules_len) (documented panic past u32::MAX rules) is not mirrored (C20)",
     ]
